@@ -54,6 +54,15 @@ func (g *Gen) schemaCheck(o *Occ) {
 		w(`{ a, ok := as[%q]; vrt.Assert("C02/"+path+"/%s:present", ok)`, name, name)
 		if s.Kind != SCustom {
 			flags(name, s.Required, s.Computed, s.Sensitive, s.Comment, len(s.Validators), len(s.PlanModifiers))
+			// which plan modifier, not only how many (the two framework modifiers are told apart by type)
+			for i, pm := range s.PlanModifiers {
+				switch pm {
+				case "github.com/hashicorp/terraform-plugin-framework/tfsdk.RequiresReplace()":
+					w(`  if len(a.PlanModifiers) == %d { _, is := a.PlanModifiers[%d].(tfsdk.RequiresReplaceModifier); vrt.Assert("C10/"+path+"/%s:plan-modifier-%d-is-the-configured-one", is) }`, len(s.PlanModifiers), i, name, i)
+				case "github.com/hashicorp/terraform-plugin-framework/tfsdk.UseStateForUnknown()":
+					w(`  if len(a.PlanModifiers) == %d { _, is := a.PlanModifiers[%d].(tfsdk.UseStateForUnknownModifier); vrt.Assert("C10/"+path+"/%s:plan-modifier-%d-is-the-configured-one", is) }`, len(s.PlanModifiers), i, name, i)
+				}
+			}
 		}
 		switch s.Kind {
 		case SScalar, SList, SMap:
